@@ -31,7 +31,7 @@ def log(*a):
 # building
 # --------------------------------------------------------------------------
 CXXBASE = ["-std=gnu++11", "-DPHOTOSPLINE_INCLUDES_SPGLAM", "-D" + GUARD,
-           "-I" + os.path.join(REPO, "include"), "-I/usr/include/suitesparse",
+           "-I" + os.path.join(REPO, "include"), "-I" + os.path.join(REPO, "src/fitter"), "-I/usr/include/suitesparse",
            "-msse2", "-msse3", "-msse4", "-msse4.1", "-msse4.2", "-mno-avx",
            "-Wno-deprecated-declarations", "-Wno-register", "-w"]
 CBASE = ["-std=gnu99", "-DPHOTOSPLINE_INCLUDES_SPGLAM", "-D" + GUARD,
@@ -246,7 +246,7 @@ def run_tlc(module, cfg, tag="tlc", workers=None, simulate=None, depth=None, env
         res.violated = "deadlock"
     elif re.search(r"Temporal properties were violated|Action property .* is violated", res.out):
         res.violated = "temporal"
-    elif "The postcondition" in res.out and "violated" in res.out or "Evaluating postcondition" in res.out and "false" in res.out.lower():
+    elif re.search(r"Postcondition \S+ .* is false", res.out):
         res.violated = "postcondition"
     for mm in re.finditer(r"^<(\w+) line \d+, col \d+ to line \d+, col \d+ of module (\w+)>: (\d+):(\d+)", res.out, re.M):
         res.coverage[mm.group(1)] = res.coverage.get(mm.group(1), 0) + int(mm.group(3))
